@@ -91,7 +91,7 @@ func (e *Engine) isMatchNFA(haystack []byte) bool {
 	// Use prefilter for skip-ahead if available
 	if e.prefilter != nil {
 		at := 0
-		for at < len(haystack) {
+		if at < len(haystack) {
 			// Find next candidate position via prefilter
 			pos := e.prefilter.Find(haystack, at)
 			if pos == -1 {
@@ -111,9 +111,11 @@ func (e *Engine) isMatchNFA(haystack []byte) bool {
 				return true
 			}
 
-			// Move past this position
+			// The search from the candidate is unanchored: it has looked at every
+			// start position from pos to the end. Trying the next candidate would
+			// repeat that scan (candidates x n steps) and cannot find anything new.
 			atomic.AddUint64(&e.stats.PrefilterMisses, 1)
-			at = pos + 1
+			return false
 		}
 		return false
 	}
